@@ -175,7 +175,8 @@ def specIds (k : Kind) (tag : String) (nm : Named) (ids : List Key) : List Key :
     insBefore nm.target (if k.dedups then cids.filter (fun c => !ids.contains c) else cids) ids
   | .replace => match nm.target with | some t => replaceKey t cids ids | none => ids
   | .move => insBefore nm.target nm.sources (ids.filter (fun x => !nm.sources.contains x))
-  | .delete => ids.filter (fun x => !nm.sources.contains x)
+  -- a blank reference names nothing: only present IDs that are named go
+  | .delete => ids.filter (fun x => !(x.isSome && nm.sources.contains x))
   | .send => ids
   | .swap => match nm.sources with | [a, b] => swapKeys a b ids | _ => ids
   | .none => ids
@@ -236,8 +237,9 @@ def containerIds (k : Kind) (nm : Named) (d : Xml) : Option (List Key) :=
 
 def levelTag (k : Kind) : String := if k.isStoryLevel then "story" else "item"
 
-/-- domain of C01 (story-level) and C02 (item-level): well-formed running order, unique IDs in the
-    edited container, schema-shaped message, references resolve -/
+/-- domain of C01 (story-level) and C02 (item-level): well-formed running order, the PRESENT IDs of
+    the edited container unique (blank or missing IDs — key `none` — may occur any number of times:
+    no reference resolves to them), schema-shaped message, references resolve -/
 def DomOrder (i : MergeInput) : Bool :=
   WfRO i.d && !completed i.d && TimingOk i.d && shaped i.k i.m && (i.k.isStoryLevel || i.k.isItemLevel) &&
   match i.m.find i.k.baseTag with
@@ -246,7 +248,7 @@ def DomOrder (i : MergeInput) : Bool :=
     let nm := namedOf i.k base
     match containerIds i.k nm i.d with
     | none => false
-    | some ids => ids.all (·.isSome) && decide ids.Nodup && resolves i.k nm ids
+    | some ids => decide (ids.filter (·.isSome)).Nodup && resolves i.k nm ids
 
 /-- C01/C02: no error, and the ID sequence of the edited container is the protocol's -/
 def holdsOrder (i : MergeInput) (o : Res) : Bool :=
